@@ -636,35 +636,71 @@ def r4b_which_text_is_compared(ctx):
                                'whether anything was printed is decided on a stripped copy of the output: an example that prints only blank lines (`print()`) is treated as silent, and its want '
                                '(`<BLANKLINE>`) is compared with repr(value) -- `None` -- instead of the output', anchor=q)
                         return
-                failed_before = any(fa.polarity is False and isinstance(fa.expr, ast.Name) and fa.expr.id not in ('got_stdout',) for fa in facts)
-                # `flag = check_output(stdout ...) or check_output(repr ...)`: the second operand runs when the first was false
-                for fa in graph.short_circuit_facts(n.ast, c):
-                    if fa.polarity is False and isinstance(fa.expr, ast.Call) and ctx.res.resolve_call(f, fa.expr)[0] == 'repo' and \
-                            ctx.res.resolve_call(f, fa.expr)[1][0].qualname == 'xdoctest.checker.check_output':
-                        failed_before = True
+                allfacts = list(facts) + [fa for fa in graph.short_circuit_facts(n.ast, c)]
                 stored = isinstance(n.ast, (ast.Assign, ast.Return)) or n.kind == 'test'
-                sites.append((n, c, kinds, noeval, printed, failed_before, stored))
+                sites.append((n, c, kinds, allfacts, stored))
     rep.floor('C02.R4b', 'comparisons in check_got_vs_want', len(sites), 3)
+
+    class _Unknown(Exception):
+        pass
+
+    def is_cmp_call(e):
+        if not isinstance(e, ast.Call):
+            return False
+        r = ctx.res.resolve_call(f, e)
+        return r[0] == 'repo' and r[1][0].qualname == 'xdoctest.checker.check_output'
+
+    def truth(e, node, env, depth=0):
+        """value of a condition in the situation env = (evaluated, printed, first comparison matched)"""
+        if isinstance(e, ast.UnaryOp) and isinstance(e.op, ast.Not):
+            return not truth(e.operand, node, env, depth)
+        if isinstance(e, ast.BoolOp):
+            vs = [truth(v, node, env, depth) for v in e.values]
+            return all(vs) if isinstance(e.op, ast.And) else any(vs)
+        if isinstance(e, ast.Compare) and len(e.ops) == 1 and 'NOT_EVALED' in ast.unparse(e) and isinstance(e.ops[0], (ast.Is, ast.IsNot)) and \
+                (is_name(e.left, 'got_eval') or is_name(e.comparators[0], 'got_eval')):
+            return env[0] != isinstance(e.ops[0], ast.Is)
+        if is_name(e, 'got_stdout'):
+            return env[1]
+        if is_cmp_call(e):
+            return env[2]
+        if isinstance(e, ast.Name) and depth < 4:
+            ds = rd.at(node, e.id) if node is not None else []
+            vals = {id(d.value): d for d in ds if isinstance(d.value, ast.AST)}
+            if ds and len(vals) == len(ds):
+                if all(is_cmp_call(d.value) for d in ds):
+                    return env[2]
+                if len(ds) == 1:
+                    return truth(ds[0].value, ds[0].node, env, depth + 1)
+        raise _Unknown(ast.unparse(e))
+    SITUATIONS = [((False, False, True), 'nothing evaluated', {'stdout'}), ((False, True, True), 'nothing evaluated', {'stdout'}),
+                  ((True, False, True), 'evaluated, nothing printed', {'repr'}), ((True, False, False), 'evaluated, nothing printed', {'repr'}),
+                  ((True, True, True), 'evaluated and printed', {'stdout'}), ((True, True, False), 'evaluated and printed, stdout did not match', {'stdout', 'repr'})]
     have = set()
-    for (n, c, kinds, noeval, printed, failed_before, stored) in sites:
-        if noeval is True:
-            want_kind, branch = {'stdout'}, 'nothing evaluated'
-        elif printed is False:
-            want_kind, branch = {'repr'}, 'evaluated, nothing printed'
-        elif printed is True and failed_before:
-            want_kind, branch = {'repr'}, 'evaluated and printed, stdout did not match'
-        elif printed is True:
-            want_kind, branch = {'stdout'}, 'evaluated and printed'
-        else:
-            raise AnalysisError('C02.R4b: the branch of %s was not recognised' % ctx.src(c))
+    for (n, c, kinds, allfacts, stored) in sites:
         need('?' not in kinds, 'C02.R4b: where the text compared by %s comes from was not recognised' % ctx.src(c))
-        ok = kinds == want_kind and stored
-        have.add(branch)
-        rep.ob('C02.R4b', ctx.loc(f, c), '%s | %s' % (ctx.src(c), branch), ok,
-               'compares the %s text and keeps the verdict' % '/'.join(sorted(want_kind)) if ok else
-               ('in the branch "%s" the compared text is %s instead of %s: %s' % (branch, sorted(kinds), sorted(want_kind),
-                'the value fallback never sees repr(value), so an example that prints and returns fails although its want is the value' if want_kind == {'repr'} else 'the wrong side is compared')
-                if kinds != want_kind else 'the verdict of this comparison is not stored'), anchor=q)
+    for (env, branch, want_kinds) in SITUATIONS:
+        reached = []
+        for (n, c, kinds, allfacts, stored) in sites:
+            try:
+                on = all(truth(fa.expr, fa.origin.attrs['test'] if getattr(fa, 'origin', None) is not None and fa.origin.kind == 'branch' else n, env) == fa.polarity for fa in allfacts)
+            except _Unknown as ex:
+                raise AnalysisError('C02.R4b: the branch of %s was not recognised (%s)' % (ctx.src(c), ex))
+            if on:
+                reached.append((n, c, kinds, stored))
+        got_kinds = set()
+        for (_n, _c, kinds, _s) in reached:
+            got_kinds |= kinds
+        # when the first comparison matched, a second one (the value fallback) must not be needed: it may run only after a failed first one
+        ok = got_kinds == want_kinds and all(st for (_n, _c, _k, st) in reached)
+        if reached:
+            have.add(branch)
+        site = reached[0] if reached else None
+        rep.ob('C02.R4b', ctx.loc(f, site[1]) if site else ctx.loc(f, f.node), '%s | %s' % (' ; '.join(ctx.src(c_, 50) for (_n, c_, _k, _s) in reached) or 'no comparison', branch), ok,
+               'compares the %s text and keeps the verdict' % '/'.join(sorted(want_kinds)) if ok else
+               ('in the situation "%s" the compared text is %s instead of %s: %s' % (branch, sorted(got_kinds), sorted(want_kinds),
+                'the value fallback never sees repr(value), so an example that prints and returns fails although its want is the value' if 'repr' in want_kinds - got_kinds else 'the wrong side is compared')
+                if got_kinds != want_kinds else 'the verdict of this comparison is not stored'), anchor=q)
     missing = {'nothing evaluated', 'evaluated, nothing printed', 'evaluated and printed', 'evaluated and printed, stdout did not match'} - have
     rep.ob('C02.R4b', ctx.loc(f, f.node), 'a comparison in each of the four situations', not missing,
            'stdout / repr / stdout then repr' if not missing else 'no comparison is made when: %s' % sorted(missing), anchor=q)
